@@ -248,7 +248,7 @@ fn run_one(u: &Universe, a: &RefState, real_a: &WarpState, ops: Vec<WarpOp>) -> 
     match mc::catch(|| live_patch.apply_to_state(&mut live)) {
         Err(p) => {
             return (
-                Ok(Verdict::Bad(vec![format!("tick-emulation:panic-in-live-apply:{}", p.chars().take(60).collect::<String>())], false)),
+                Ok(Verdict::Bad(vec![format!("tick:panic-in-live-apply:{}", p.chars().take(60).collect::<String>())], false)),
                 None,
                 false,
             )
@@ -260,7 +260,7 @@ fn run_one(u: &Universe, a: &RefState, real_a: &WarpState, ops: Vec<WarpOp>) -> 
         Ok(p) => p,
         Err(msg) => {
             return (
-                Ok(Verdict::Bad(vec![format!("tick-emulation:live-state-incoherent:{}", msg.chars().take(70).collect::<String>())], false)),
+                Ok(Verdict::Bad(vec![format!("tick:live-state-incoherent:{}", msg.chars().take(70).collect::<String>())], false)),
                 None,
                 false,
             )
@@ -273,18 +273,18 @@ fn run_one(u: &Universe, a: &RefState, real_a: &WarpState, ops: Vec<WarpOp>) -> 
         Ok(o) => patch_of(o),
         Err(p) => {
             return (
-                Ok(Verdict::Bad(vec![format!("tick-emulation:panic-in-diff_state:{}", p.chars().take(60).collect::<String>())], false)),
+                Ok(Verdict::Bad(vec![format!("tick:panic-in-diff_state:{}", p.chars().take(60).collect::<String>())], false)),
                 Some(post),
                 false,
             )
         }
     };
     let changing = !emitted.ops().is_empty();
-    let (v, _) = apply_and_judge(u, a, real_a, &post, &root_post, &emitted, "tick-emulation");
+    let (v, _) = apply_and_judge(u, a, real_a, &post, &root_post, &emitted, "tick");
     let v = match v {
         Verdict::Typed(name, e) => Verdict::Bad(
             vec![format!(
-                "tick-emulation:replay-of-committed-tick-fails:{name}:{}",
+                "tick:replay-fails:{name}:{}",
                 typed_error_class(u, a, &post, &e)
             )],
             false,
@@ -328,7 +328,7 @@ fn run_family(r: &Report, fam: &Family, viol: &mut BTreeMap<String, (u64, Value)
                                 acc.post_outside_universe += 1;
                                 let k = match &v {
                                     Verdict::Exact => "replay-exact",
-                                    Verdict::Bad(s, _) if s.iter().any(|x| x.contains("replay-of-committed-tick-fails")) => "replay-typed-error",
+                                    Verdict::Bad(s, _) if s.iter().any(|x| x.contains("tick:replay-fails")) => "replay-typed-error",
                                     _ => "replay-differs",
                                 };
                                 *acc.illformed.entry(k).or_insert(0) += 1;
@@ -422,12 +422,25 @@ fn run_family(r: &Report, fam: &Family, viol: &mut BTreeMap<String, (u64, Value)
             }
         };
         let names: Vec<&str> = (0..8).filter(|i| g.2 & (1 << i) != 0).map(|i| OP_KINDS[i]).collect();
-        let sig = format!("{}:{}:tick-ops={}", g.0, g.1.join("&"), names.join("+"));
+        let sig = format!("{}:{}:ops={}", g.0, g.1.join("&"), names.join("+"));
         match viol.get_mut(&sig) {
             Some(e) => e.0 += 1,
             None => {
                 let d = tick_detail(uni, *si as usize, &fam.sets[*oi as usize].iter().map(|i| fam.alpha[*i].clone()).collect::<Vec<_>>());
                 viol.insert(sig, (1, d));
+            }
+        }
+    }
+    // one real sample per family: the first op set of maximal size that commits on the first
+    // pre-state with >= 1 edge and replays exactly
+    if let Some(&si) = fam.states.iter().find(|i| !uni.states[**i].edges.is_empty()) {
+        let a = &uni.states[si];
+        let real_a = uni.u.build(a);
+        for set in fam.sets.iter().rev() {
+            let ops: Vec<WarpOp> = set.iter().map(|i| fam.alpha[*i].clone()).collect();
+            if let (Ok(Verdict::Exact), Some(_), true) = run_one(&uni.u, a, &real_a, ops.clone()) {
+                r.sample_force(json!({"emulated_tick": tick_detail(uni, si, &ops)}));
+                break;
             }
         }
     }
@@ -612,7 +625,7 @@ pub fn replay(r: &Report, case: &Value) {
     if let (Ok(Verdict::Bad(sigs, _)), _, _) = run_one(&uni.u, a, &real_a, ops) {
         let names: Vec<&str> = (0..8).filter(|i| kinds & (1 << i) != 0).map(|i| OP_KINDS[i]).collect();
         for s in sigs {
-            r.violation(&format!("{s}:tick-ops={}", names.join("+")), d.clone());
+            r.violation(&format!("{s}:ops={}", names.join("+")), d.clone());
         }
     }
 }
